@@ -11,8 +11,8 @@ CONSTANT Variant   \* "spec": the table as specified.  Anything else: a delibera
                    \* table (each one is a defect that wild once had); TLC must reject every one of them
                    \* (anti-vacuity), and the conformance harness reports a VIOLATION if the code behaves so.
 
-VARIABLES ti, V
-vars == <<ti, V>>
+VARIABLES ti, V, place
+vars == <<ti, V, place>>
 
 Ty == Types[ti]
 
@@ -37,14 +37,18 @@ Candidates(t) ==
     (IF t.lo > 0 THEN Around(t.lo) ELSE {})
 Values(t) == {AlignDown(t, X) : X \in Candidates(t)}
 
-Init == ti \in 1..Len(Types) /\ V \in Values(Types[ti])
+Init == /\ ti \in 1..Len(Types) /\ V \in Values(Types[ti])
+        /\ place \in {pl \in Places : LegalIn(Types[ti], pl)}
 Next == UNCHANGED vars
 Spec == Init /\ [][Next]_vars
 
 (* The decision rule under test: Fits, or one of the broken readings *)
 PrelChecked == {"R_AARCH64_MOVW_PREL_G0", "R_AARCH64_MOVW_PREL_G1", "R_AARCH64_MOVW_PREL_G2"}
 VFits(t, X) ==
-    CASE Variant = "spec" -> Fits(t, X)
+    CASE Variant = "spec" -> FitsAt(t, place, X)
+      (* relocations in non-alloc debug sections written without verification ("debug values always
+         fit"): an overflowing value is silently truncated there *)
+      [] Variant = "unchecked-in-debug" -> IF place = "debug" THEN TRUE ELSE Fits(t, X)
       (* R_X86_64_8 / R_X86_64_16 read as signed-only: 200 rejected although the byte holds it *)
       [] Variant = "signed-only-8-16" ->
             IF t.name \in {"R_X86_64_8", "R_X86_64_16"} THEN FitsSigned(t.n, X) ELSE Fits(t, X)
@@ -64,9 +68,9 @@ ASSUME \A i, j \in 1..Len(Types) :
 ASSUME \A i \in 1..Len(Types) : Types[i].insn # "" =>
           \E k \in 1..Len(Encodings) : Encodings[k].arch = Types[i].arch /\ Encodings[k].use = Types[i].insn
 
-Rec == [arch |-> Ty.arch, name |-> Ty.name, rtype |-> Ty.rtype, sign |-> Ty.sign, n |-> Ty.n,
+Rec == [place |-> place, arch |-> Ty.arch, name |-> Ty.name, rtype |-> Ty.rtype, sign |-> Ty.sign, n |-> Ty.n,
         size |-> Ty.size, insn |-> Ty.insn, lo |-> Ty.lo, hi |-> Ty.hi, align |-> Ty.align,
-        v |-> V, fits |-> Fits(Ty, V), word |-> ExpectedWord(Ty, V),
+        v |-> V, fits |-> FitsAt(Ty, place, V), word |-> ExpectedWord(Ty, V),
         mask |-> IF Ty.insn = "" THEN 0..(8 * Ty.size - 1) ELSE Mask(Encodings[EncOf(Ty)]),
         op |-> IF Ty.insn = "" THEN {} ELSE Encodings[EncOf(Ty)].op]
 Emit == PrintT(<<"REPLAY", ToJson(Rec)>>)
